@@ -98,6 +98,7 @@ func prop(t *rapid.T) {
 	n := rapid.IntRange(2, ev.Pick(12, 30)).Draw(t, "nreq")
 	dirty := map[*rux.Context]bool{} // contexts whose last user polluted them
 	var served []*chain.ReqState
+	var lastRec *chain.RecWriter
 	defer func() {
 		// a context copy kept by an earlier request is not touched by later requests
 		ncopies := 0
@@ -126,6 +127,14 @@ func prop(t *rapid.T) {
 
 		st := w.NewRequest(q[0], q[1])
 		st.First = func(c *rux.Context) { snapReal = snapshot(c, st, r) }
+		// a server may hand the very same ResponseWriter object to consecutive requests: the recording writer of the
+		// previous request, wiped, serves this one
+		if lastRec != nil && rapid.IntRange(0, 3).Draw(t, "sameWriterObject") == 0 {
+			*lastRec = *chain.NewRec()
+			st.Rec = lastRec
+			ev.Class("request:served-with-the-writer-object-of-the-previous-request")
+		}
+		lastRec = st.Rec
 		out := st.Serve(r)
 		served = append(served, st)
 		ctx := fmt.Sprintf("request %d of the history: %s %q (%s)\nprogram:\n%sscripts:\n%s", i, q[0], q[1], res.Kind, prog, prog.Scripts())
